@@ -477,7 +477,8 @@ class BaseParser:
         # even if required fields are ignored (ignore_required), unprovided fields still take their defaults
         for key, field in self.fields.items():
             name = field.attname if as_attname else field.name
-            if name in result:
+            if name in result or name in provided:
+                # a provided value that failed to parse has been reported already: it is not absent
                 continue
             if excluded_keys and name in excluded_keys:
                 continue
